@@ -75,3 +75,18 @@ package lineintersector
 //@   at stmt33: use crossSwap(line1Start[0], line1Start[1], line1End[0], line1End[1], line2End[0], line2End[1])
 //@   at stmt33: use touchOnSeg(line2Start[0], line2Start[1], line2End[0], line2End[1], line1End[0], line1End[1], line1Start[0], line1Start[1])
 //@   at stmt33: assert onSeg(data.intersectionPoints[0][0], data.intersectionPoints[0][1], line1Start[0], line1Start[1], line1End[0], line1End[1]) && onSeg(data.intersectionPoints[0][0], data.intersectionPoints[0][1], line2Start[0], line2Start[1], line2End[0], line2End[1])
+
+//@ func lineintersection.NewResult
+//@   ensures res.intersectionType == intersectionType && res.intersection == intersection
+//@   modifies nothing
+
+// the public entry point with the robust strategy: the class is segClass, the number of reported points is the
+// class, a touching point is a point of both segments
+//@ func LineIntersectsLine
+//@   floats real
+//@   requires istype(strategy, RobustLineIntersector) && len(line1Start) >= 2 && len(line1End) >= 2 && len(line2Start) >= 2 && len(line2End) >= 2
+//@   requires [non-degenerate] !(line1Start[0] == line1End[0] && line1Start[1] == line1End[1]) && !(line2Start[0] == line2End[0] && line2Start[1] == line2End[1])
+//@   ensures [class] res.intersectionType == segClass(line1Start[0], line1Start[1], line1End[0], line1End[1], line2Start[0], line2Start[1], line2End[0], line2End[1])
+//@   ensures [count] len(res.intersection) == res.intersectionType
+//@   ensures [endpoint] res.intersectionType == 1 && touches(line1Start[0], line1Start[1], line1End[0], line1End[1], line2Start[0], line2Start[1], line2End[0], line2End[1]) ==> onSeg(res.intersection[0][0], res.intersection[0][1], line1Start[0], line1Start[1], line1End[0], line1End[1]) && onSeg(res.intersection[0][0], res.intersection[0][1], line2Start[0], line2Start[1], line2End[0], line2End[1])
+//@   modifies nothing
